@@ -858,7 +858,12 @@ pub fn gen_desc(r: &mut StdRng, o: &GenOpts) -> Desc {
         }
         for i in 0..d.funcs.len() {
             if r.gen_bool(p) {
-                n.funcs.push((i as u32, format!("f{}{}", i, name(r, ""))));
+                // now and then the name of the previous named function again (names need not be unique)
+                let nm = match n.funcs.last() {
+                    Some((_, prev)) if r.gen_bool(0.2) => prev.clone(),
+                    _ => format!("f{}{}", i, name(r, "")),
+                };
+                n.funcs.push((i as u32, nm));
             }
         }
         for (k, b) in d.bodies.iter().enumerate() {
